@@ -431,6 +431,34 @@ def r10(ctx, rep):
     rep.borrowed(C04.r5, ctx, "C16.R10", "partition and frame attached to the transforms of a sub-pipeline are columns of that sub-pipeline", only=r"join-append-isolated")
 
 
+
+def r11(ctx, rep):
+    rep.rule("C16.R11", "the window a transform is lowered with does not outlive that transform", floor=1)
+    import flow
+    syn = ctx.syn
+    fs = [f for f in syn.fns if f["crate"] == "prqlc" and f["file"].endswith("semantic/lowering.rs") and f["name"] == "lower_pipeline" and "body" in f]
+    if len(fs) != 1:
+        raise AnchorMissing("Lowerer::lower_pipeline")
+    f = fs[0]
+    sets = [n for n in walk(f["body"]) if n.get("k") == "assign" and show(n["lhs"]) == "self.window" and show(n["rhs"], maxdepth=4).startswith("Some(")]
+    if not sets:
+        raise AnchorMissing("lower_pipeline: `self.window = Some(..)`")
+    # after the statement that sets the window, every non-error exit of the function is preceded by a statement that empties it again
+    # (`self.window = None`, or an unconditional `self.window.take()`): columns declared later - e.g. for a window function in the
+    # condition of an enclosing join - otherwise get the partition / sort ids of this pipeline
+    stmts = f["body"]["s"]
+    idx = max(i for i, st in enumerate(stmts) if any(x is n_ for n_ in sets for x in walk(st)))
+    tail = {"k": "block", "l": stmts[idx]["l"], "s": stmts[idx + 1:]}
+
+    def clears(x):
+        if x.get("k") == "assign" and show(x["lhs"]) == "self.window" and show(x["rhs"]) == "None":
+            return True
+        return False
+    bad = flow.must_precede_exits(tail, clears)
+    rep.check(not bad, "window-reset", f"lower_pipeline sets `self.window = Some(..)` for the transform it lowers; the exit(s) at {bad} leave it set: the Lowerer is shared by all pipelines "
+              "(lower_relation does not save it), so a window function lowered afterwards in the enclosing pipeline (a join condition) is given this pipeline's partition and sort columns - ids of "
+              "another table", file=f["file"], line=sets[0]["l"], fn=f["path"])
+
 def run(ctx, rep):
-    for r in (r1, r2, r3_r4, r5, r6, r7, r8, r9, r10):
+    for r in (r1, r2, r3_r4, r5, r6, r7, r8, r9, r10, r11):
         rep.guard(r, ctx)
